@@ -196,4 +196,25 @@ def jacEntry [Add K] [Mul K] [Neg K] [OfNat K 0] [OfNat K 1] (R : List (Expr K))
   | some e => Expr.eval env (Expr.diff j e)
   | none => 0
 
+/-! ### block-relaxation linear solves (LinearRunOnce / LinearBlockGS at scalar granularity)
+
+`solvers/linear/linear_runonce.py`, `linear_block_gs.py`: the unknowns are visited in a fixed order;
+visiting unknown `i` solves row `i` for `x i` with the current values of all other unknowns
+(explicit components: the diagonal entry is the identity block, so "solve" is a subtraction;
+forward mode visits in execution order on `A`, reverse mode in reverse order on `Aᵀ`). -/
+
+/-- off-diagonal part of row `i` applied to `x` -/
+def offDiag [Add K] [Mul K] [OfNat K 0] (n : Nat) (a : Nat → Nat → K) (x : Nat → K) (i : Nat) : K :=
+  sumTo n (fun j => if j = i then 0 else a i j * x j)
+
+/-- visit unknown `i` -/
+def gsStep [Add K] [Mul K] [Sub K] [Div K] [OfNat K 0] (n : Nat) (a : Nat → Nat → K) (b x : Nat → K)
+    (i : Nat) : Nat → K :=
+  fun k => if k = i then (b i - offDiag n a x i) / a i i else x k
+
+/-- one pass over the unknowns in the given order -/
+def gsSweep [Add K] [Mul K] [Sub K] [Div K] [OfNat K 0] (n : Nat) (a : Nat → Nat → K) (b x : Nat → K)
+    (order : List Nat) : Nat → K :=
+  order.foldl (gsStep n a b) x
+
 end OMV.Spec
